@@ -270,6 +270,12 @@ func ruleFLOW(c *Ctx) []Obligation {
 			o := Obligation{Key: k, Pos: c.pos(pos), Verdict: OK, Tags: append(asmTags(fn.Name(), tkey), irTags(n)...)}
 			names := sortedKeys(A)
 			okFlow := A[f.Name()]
+			// a field-to-field copy between IR values (typ.Scalable = xType.Scalable) carries the like-named field by construction
+			if se, ok := unparen(rhs).(*ast.SelectorExpr); ok && se.Sel.Name == f.Name() {
+				if sel, ok := info.Selections[se]; ok && sel.Kind() == types.FieldVal {
+					okFlow = true
+				}
+			}
 			for _, a := range flowAlias[tkey+"."+f.Name()] {
 				okFlow = okFlow || A[a]
 			}
@@ -358,7 +364,7 @@ func ruleFLDW(c *Ctx) []Obligation {
 			switch nd := nd.(type) {
 			case *ast.CompositeLit:
 				n := namedOf(info.TypeOf(nd))
-				if n == nil || n.Obj().Pkg() == nil || !c.isLLVM(n.Obj().Pkg().Path()) || n.Obj().Pkg().Path() == pkgASM {
+				if n == nil || n.Obj().Pkg() == nil || !isIRPkg(n.Obj().Pkg().Path()) {
 					return true
 				}
 				st, ok := n.Underlying().(*types.Struct)
